@@ -148,7 +148,8 @@ def parse(tr):
     target_fault = any(c["out"] is not None and c["out"][0] == "fault" for c in calls)
     P["target_fault"] = target_fault
     P["crashed"] = exc is not None and not target_fault      # internal error: compare the prefix of complete iterations only
-    all_iter_evs = iters + ([tail] if (exc is not None and target_fault and tail) else [])
+    finished = bool(iters) and iters[-1][-1][1]["is_finished"]
+    all_iter_evs = iters + ([tail] if (exc is not None and target_fault and tail and not finished) else [])
     for n_it, evs in enumerate(all_iter_evs):
         probe = evs[-1] if evs and evs[-1][0] == "probe" else None
         it = parse_iter(evs, probe)
@@ -198,6 +199,39 @@ def parse(tr):
             m["SI"] = 0.0
         out_iters.append(m)
     P["iters"], P["expect"] = out_iters, expect
+    # ---- final phase
+    fin = tr["final"]
+    nfs = opt_int(fin["nfs"], "noise_final_samples")
+    P["nfs"] = nfs
+    fcalls = [c for c in calls if c["phase"] == "final"]
+    fev = dict(idx=0, f=0.0, s=0.0, obs=[], mean=0.0, sem=0.0)
+    if finished and level > 0 and last_piter > 0:
+        re = [e for e in tail if e[0] == "reeval"]
+        if not re:
+            raise TraceShape("no history re-evaluation recorded in the final phase")
+        import numpy as np
+        from scipy.special import erfcinv
+        fv, fs = np.array(re[0][2], dtype=float), np.array(re[0][3], dtype=float)
+        sm = np.sqrt(2) * erfcinv(2 * fin["final_quantile"])
+        idx = int(np.argmin((fv + sm * fs)[1:])) + 1
+        fev.update(idx=idx, f=float(fv[idx]), s=float(fs[idx]))
+        for c in fcalls:
+            flt = c["out"] is None or c["out"][0] == "fault" or "exc" in c
+            fev["obs"].append((flt, 0.0 if flt else c["out"][1], None if flt else c["out"][2]))
+        if "result" in tr:
+            fev["mean"], fev["sem"] = tr["result"]["fval"], tr["result"]["fsd"]
+    elif fcalls:
+        raise TraceShape("target calls after the loop without a final phase")
+    P["final_ev"] = fev
+    snapf = fin["snap"]
+    sampled = bool(finished and level > 0 and last_piter > 0 and nfs > 0)
+    died_in_final = exc is not None and target_fault and finished
+    P["final_expect"] = dict(fc=snapf["fc"], nrows=snapf["Xn"] + 1, exn=died_in_final,
+                             u=None if died_in_final else snapf["u"], y=None if died_in_final else snapf["yval"],
+                             f=None if died_in_final else snapf["fval"], s=None if died_in_final else snapf["fsd"],
+                             yvec=(tr["result"]["yval_vec"] if ("result" in tr and sampled) else None),
+                             sdvec=(tr["result"]["ysd_vec"] if ("result" in tr and sampled and tr["spec"].get("noise") == "specified") else None),
+                             sampled=None if died_in_final else sampled, ncalls=len(calls), complete=(finished and (exc is None or died_in_final)))
     P["hist_final"] = tr["final"]["hist"]
     P["ncalls"] = tr["final"]["ncalls"]
     return P
@@ -233,6 +267,26 @@ def c_inputs(P):
     return f"{cz(P['k0'])} {cz(P['ks0'])} {c_opts(P['opts'])} {ic} {cq(P['fsd0'] if P['fsd0'] is not None and not math.isnan(P['fsd0']) else 0.0)} {clist([c_iter(m) for m in P['iters']])}"
 
 
+def c_final(P):
+    f = P["final_ev"]
+    obs = clist([f"(({cbool(o[0])}, {cq(o[1])}), {c_optq(o[2])})" for o in f["obs"]])
+    return f"{cz(P['nfs'])} (mkFE {int(f['idx'])}%nat {cq(f['f'])} {cq(f['s'])} {obs} {cq(f['mean'])} {cq(f['sem'])})"
+
+
+def x_final(P):
+    e = P["final_expect"]
+    if not e["complete"]:
+        return "XW"
+    def xv(v):
+        return "XW" if v is None else f"(XV {cval(v)})"
+    ctrl = "(XL " + clist(["XW"] * 6 + [xv(e["fc"]), xv(e["nrows"]), "XW", "XW", xv(e["exn"])]) + ")"
+    inc = "XW" if e["u"] is None else "(XL " + clist([xv(e["u"]), xv(e["y"]), xv(e["f"]), xv(e["s"] if e["s"] is not None and not math.isnan(e["s"]) else 0.0)]) + ")"
+    yv = "XW" if e["yvec"] is None else xv(e["yvec"])
+    sd = "XW" if e["sdvec"] is None else xv(e["sdvec"][:len(P["final_ev"]["obs"])])
+    ncalls = "XW"
+    return "(XL " + clist([ctrl, inc, yv, sd, xv(e["sampled"]), "XW"]) + ")"
+
+
 def x_state(e, wild="XW"):
     """expected xval for dump_st; None fields are wildcards (dying iteration)"""
     def xv(v):
@@ -250,7 +304,7 @@ def x_expected(P):
     s0 = P["init_snap"]
     e0 = dict(k=P["k0"], ks=P["ks0"], scount=P["opts"]["ntry"], ssucc=0, spree=0, piter=0, fc=s0["fc"], nrows=s0["Xn"] + 1,
               fin=False, msg=0, exn=False, u=s0["u_best"], y=s0["yval"], f=s0["fval"], s=(s0["fsd"] if s0["fsd"] is not None and not math.isnan(s0["fsd"]) else 0.0))
-    return "(XL " + clist([x_state(e0), "(XL " + clist([x_state(e) for e in P["expect"]]) + ")", "XW", "XW"]) + ")"
+    return "(XL " + clist([x_state(e0), "(XL " + clist([x_state(e) for e in P["expect"]]) + ")", "XW", x_final(P)]) + ")"
 
 
 def coq_case(P):
@@ -326,7 +380,7 @@ def _run_one(args):
 
 def traces(specs_faults, tag):
     """Run (spec, fault) pairs in parallel with an on-disk cache keyed by the content hash of /repo's tree."""
-    key = core.repo_tree_hash()
+    key = core.repo_tree_hash() + "-" + hashlib.sha1((core.VERIF / "harness" / "trace.py").read_bytes()).hexdigest()[:8]
     d = core.CACHE / key
     d.mkdir(parents=True, exist_ok=True)
     out, todo = [None] * len(specs_faults), []
